@@ -251,6 +251,12 @@ pub struct NodeCfg {
     pub heartbeat: u64,
     pub social_stake: u64,
     pub loading_completed: bool,
+    /// consensus.prune_after_blocks (8 in the shipped configuration; replays recorded before the field existed use 8)
+    #[serde(default = "default_prune")]
+    pub prune: u64,
+}
+fn default_prune() -> u64 {
+    8
 }
 impl Default for NodeCfg {
     fn default() -> Self {
@@ -259,6 +265,7 @@ impl Default for NodeCfg {
             heartbeat: 100,
             social_stake: 0,
             loading_completed: true,
+            prune: 8,
         }
     }
 }
@@ -268,7 +275,7 @@ impl NodeCfg {
             consensus: ConsensusConfig {
                 genesis_period: self.gp,
                 heartbeat_interval: self.heartbeat,
-                prune_after_blocks: 8,
+                prune_after_blocks: self.prune.max(1),
                 max_staker_recursions: 3,
                 default_social_stake: self.social_stake,
                 default_social_stake_period: 60,
